@@ -125,6 +125,9 @@ def load():
     ip = sym_module("eko.interpolation", np=np_)
     man = sym_module("eko.io.manipulate", np=np_)
     assert man.interpolation is ip
+    C34.track_module_state(ip)  # every explored path starts from the import-time module state (caches, registries)
+    C34.track_module_state(man)
+    C34._install_memo()
     return man, ip, np_
 
 
@@ -463,6 +466,91 @@ def case_xgrid_input(log, mode, n, deg, sspec, F=1, also_target=False):
     log.path_stats(pm)
 
 
+def case_xgrid_sequence(log, mode, n, deg, side, m=1):
+    """State across calls: xgrid_reshape towards the new grid g is first applied to an operator living on the old grid x and
+    then, in the same process, with the same degree and on the same side, to an operator living on the old grid y of equal
+    length that differs from x at node m (y_m a free symbol between its neighbours).  The second result must be what a
+    fresh process gives: decided by the same goals as the single-call cases, with respect to the grid y."""
+    man, ip, np_ = load()
+    log.encode(man.xgrid_reshape, man.xgrid_compute_rotation, man.rotation, man.xgrid_check)
+    eps = ip._atol_eps
+    F = 1
+    spec = ([0] if side == "target" else [("below", 0)]) + [("in", k) for k in range(n - 1)] + [n - 1]
+    gnames = ["x%d" % sp if isinstance(sp, int) else "g%d" % i for i, sp in enumerate(spec)]
+    kw = {"mode": mode, "n": n, "deg": deg, "side": side, "m": m, "gnames": gnames}
+    key = "xgrid_reshape:state-across-calls"
+
+    def run():
+        ax = LogAxioms()
+        xg, xs, us = _grid(ip, ["x%d" % i for i in range(n)], mode, ax)
+        z = SR.var("z")
+        ylist = list(xs)
+        ylist[m] = z
+        yg, ys, vs = _grid(ip, ylist, mode, ax)
+        gl = [xs[sp] if isinstance(sp, int) else SR.var("g%d" % i) for i, sp in enumerate(spec)]
+        gg, gs, gus = _grid(ip, gl, mode, ax)
+        for i, sp in enumerate(spec):
+            if isinstance(sp, int):
+                continue
+            kind, k = sp
+            if kind == "below":
+                assume(us[k] - gus[i], ">0")
+            else:
+                assume(gus[i] - us[k], ">0")
+                assume(us[k + 1] - gus[i], ">0")
+        if side == "target":
+            for gu in gus:  # new nodes outside the comparison windows of both old grids
+                _no_window(gu, us, eps)
+                _no_window(gu, vs, eps)
+        else:
+            for u in list(us) + [vs[m]]:  # old nodes outside the windows of the new grid
+                _no_window(u, gus, eps)
+        P = sym_tensor("P", (F, n, F, n))
+        args = {"targetgrid": gg} if side == "target" else {"inputgrid": gg}
+        man.xgrid_reshape(man.Operator(operator=P), xg, deg, **args)  # first call, on the old grid x
+        smp = _seq_sampler(n, mode, spec, m)
+        if side == "target":
+            cs = [sym_tensor("c%d" % q, (F, F, n)) for q in range(deg + 1)]
+            O = realnp.empty((F, n, F, n), dtype=object)
+            for j in range(n):
+                for k in range(n):
+                    O[0, j, 0, k] = sum((cs[q][0, 0, k] * vs[j] ** q for q in range(deg + 1)), SR(0))
+            new = man.xgrid_reshape(man.Operator(operator=O), yg, deg, **args)  # second call, on the old grid y
+            for i in range(len(gs)):
+                res = SR(0)
+                for k in range(n):
+                    want = sum((cs[q][0, 0, k] * gus[i] ** q for q in range(deg + 1)), SR(0))
+                    res = res + SR.var("w_%d" % k) * (new.operator[0, i, 0, k] - want)
+                v = prove_zero(res, "second xgrid_reshape(target) in the process (other old grid, same new grid): output polynomial reproduced at new node %d" % i)
+                decide(log, v, key=key, replay=(MOD, "replay_xgrid_sequence", kw), sampler=smp)
+        else:
+            O = sym_tensor("O", (F, n, F, n))
+            new = man.xgrid_reshape(man.Operator(operator=O), yg, deg, **args)
+            for q in range(deg + 1):
+                res = SR(0)
+                for j in range(n):
+                    lhs = sum((new.operator[0, j, 0, l] * gus[l] ** q for l in range(len(gs))), SR(0))
+                    rhs = sum((O[0, j, 0, k] * vs[k] ** q for k in range(n)), SR(0))
+                    res = res + SR.var("w_%d" % j) * (lhs - rhs)
+                v = prove_zero(res, "second xgrid_reshape(input) in the process (other old grid, same new grid): u^%d on the new grid acts like u^%d on the old grid" % (q, q))
+                decide(log, v, key=key, replay=(MOD, "replay_xgrid_sequence", kw), sampler=smp)
+        log.twin("three grids")
+        log.collect_ctx()
+
+    _r, pm = explore(run, max_paths=3000)
+    log.path_stats(pm)
+
+
+def _seq_sampler(n, mode, spec, m):
+    def s(rng):
+        p = _xgrid_sampler(n, mode, spec, "g")(rng)
+        lo, hi = p["x%d" % (m - 1)], p["x%d" % (m + 1)]
+        p["z"] = lo + (hi - lo) * Fraction(rng.randint(100, 900), 1000)
+        return p
+
+    return s
+
+
 def case_errors(log):
     """concrete shapes: calling without any grid / rotation is an error; error tensors stay None / are reshaped"""
     man, ip, np_ = load()
@@ -708,6 +796,45 @@ def replay_xgrid(point, mode, n, deg, tnames, side):
     return None
 
 
+def replay_xgrid_sequence(point, mode, n, deg, side, m, gnames):
+    """real code, one process: xgrid_reshape of an operator on the old grid x towards g, then the single-call replay
+    (independent polynomial oracle) for an operator on the old grid y towards the same g"""
+    import warnings
+
+    import numpy as np
+    from eko import interpolation
+    from eko.io import manipulate
+    from eko.io.items import Operator
+
+    g = C34._nodes(point, n, mode)
+    if g is None or "z" not in point or any(t not in point for t in gnames):
+        return None
+    xs, _us = g
+    gs = [C34._f(point[t]) for t in gnames]
+    if any(b <= a for a, b in zip(gs, gs[1:])):
+        return None
+    q = dict(point)
+    q["x%d" % m] = point["z"]
+    gq = [gn if not (gn == "x%d" % m) else None for gn in gnames]
+    if None in gq:
+        return None
+    q.update({"gfix%d" % i: gs[i] for i in range(len(gs))})
+    names = ["gfix%d" % i for i in range(len(gs))]
+    if C34._nodes(q, n, mode) is None:
+        return None
+    with warnings.catch_warnings():
+        warnings.simplefilter("ignore")
+        args = {"targetgrid": interpolation.XGrid(gs, log=mode)} if side == "target" else {"inputgrid": interpolation.XGrid(gs, log=mode)}
+        try:
+            manipulate.xgrid_reshape(Operator(operator=_rng_tensor(9, (1, n, 1, n))), interpolation.XGrid(xs, log=mode), deg, **args)
+        except ValueError:
+            return None
+    r = replay_xgrid(q, mode, n, deg, names, side)
+    if r:
+        r["detail"] = "after a first xgrid_reshape(%s) of an operator on the old grid %r towards %r: %s" % (side, xs, gs, r["detail"])
+    return r
+
+
 def replay_errors(point):
     import numpy as np
     from eko import interpolation
@@ -744,6 +871,8 @@ def main():
         "symbolic operator, error tensor and input vector; buffers allocated with zeros_like keep numpy's dtype and cast on assignment as numpy does",
         "x-grid re-interpolation: old grid of n = 3..4 (thorough: up to 6) symbolic sorted nodes, log and linear, interpolation degree 1..2 (thorough: up to 3), flavour dimension 1; "
         "new grids given by position patterns relative to the old nodes (node itself / strictly inside an interval / between the neighbours of a node) with symbolic positions",
+        "state across calls: two xgrid_reshape calls in one process towards the same new grid, same degree and side, for operators on old grids of equal length that differ "
+        "at one node (free symbol); n = 3..4 (thorough: up to 5); every explored path otherwise starts from the import-time module state",
         "polynomial test functions: all monomials u^m, m <= degree, with symbolic coefficient tensors (target side) / all monomials (input side)",
     ]
     chk.out_of_claim = [
@@ -788,6 +917,9 @@ def main():
             chk.case("xgrid.input.close.%s.n%d.deg%d" % (tag, n, d), case_xgrid_input, mode=mode, n=n, deg=d,
                      sspec=[0] + [("near", 1)] + list(range(2, n)))
         chk.case("xgrid.both.%s.n3.deg1" % tag, case_xgrid_input, mode=mode, n=3, deg=1, sspec=[0, ("in", 0), ("in", 1), 2], also_target=True)
+    seq = [(True, 3, 1, "target"), (False, 3, 1, "input"), (True, 4, 2, "input")] + ([(False, 4, 2, "target"), (True, 5, 3, "target"), (False, 5, 2, "input"), (True, 5, 1, "input")] if thorough else [])
+    for mode, n, d, side in seq:
+        chk.case("xgrid.sequence.%s.%s.n%d.deg%d" % (side, "log" if mode else "lin", n, d), case_xgrid_sequence, mode=mode, n=n, deg=d, side=side)
     chk.case("errors", case_errors)
     import eko.io.manipulate  # noqa: F401  imported once per run; case workers are forked from here
     C34.clear_markers()
